@@ -138,6 +138,29 @@ def lock_word_race():
     return {"name": "lock-word-race", "layout": lay, "variant": 1, "gates": GATES_MEMBERSHIP + ["ns:loaded"], "critparks": True, "steps": steps}
 
 
+def stabilize_while_leaver_holds_own_lock():
+    """directed: a leaver with a smaller id than its successor takes its own lock first (state Leaving) and is stopped before it asks the
+    successor; its predecessor runs a stabilize round and a client writes a key of the leaver's range through the predecessor; then the leave
+    goes on.  The leaver still holds its data until the hand-over: the write is either refused (retryably) or ends up where later reads find it."""
+    lay = [{"n": "n0"}, {"k": "k0"}, {"n": "n1"}, {"k": "k1"}, {"n": "n2"}]
+    steps = [{"do": "create", "n": "n0"}]
+    for m in ("n1", "n2"):
+        steps += [{"do": "start", "op": "init" + m, "kind": "join", "n": m, "via": "n0"}, {"do": "steps", "op": "init" + m}, {"do": "settle"}]
+    steps += [{"do": "settle", "rounds": 12},
+              {"do": "start", "op": "w1", "kind": "put", "at": "n0", "k": "k0", "v": "1"}, {"do": "start", "op": "w2", "kind": "put", "at": "n2", "k": "k1", "v": "2"},
+              {"do": "start", "op": "l1", "kind": "leave", "n": "n1"}, {"do": "until", "op": "l1", "gate": "leave:lock2"},
+              {"do": "stabilize", "n": "n0"},
+              {"do": "start", "op": "w3", "kind": "put", "at": "n0", "k": "k0", "v": "3"},
+              {"do": "steps", "op": "l1"}, {"do": "settle", "rounds": 16}]
+    r = 0
+    for k in ("k0", "k1"):
+        for n in ("n0", "n2"):
+            r += 1
+            steps.append({"do": "start", "op": "r%d" % r, "kind": "get", "at": n, "k": k})
+    steps.append({"do": "settle", "rounds": 2})
+    return {"name": "stabilize-while-leaver-holds-own-lock", "layout": lay, "variant": 1, "gates": GATES_MEMBERSHIP, "steps": steps}
+
+
 # ----------------------------------------------------------------------------- events -> trace records
 def _gate(g):
     """'join:attempt@4' -> ('join:attempt', 4) ; 'done' -> ('done', None)"""
